@@ -1,5 +1,6 @@
 import Monorail.Driver.Util
 import Monorail.Model.Log
+import Monorail.Model.Task
 open Lean
 namespace Monorail.Driver
 
@@ -47,5 +48,27 @@ def handleReader (j : Json) : Except String Json := do
     ("bytes", Json.str (hexOf (dataBytes s.out))),
     ("done", match s.done with | some b => Json.bool b | none => Json.null),
     ("client", Json.bool s.client)])
+
+def sideEvOf (j : Json) : Except String (Side × REv) := do
+  let a ← j.getArr?
+  let sd ← (a[0]!).getStr?
+  let sd ← match sd with
+    | "out" => pure Side.out
+    | "err" => pure Side.err
+    | _ => throw s!"bad side {sd}"
+  let ev ← evOf (Json.arr (a.toList.drop 1).toArray)
+  pure (sd, ev)
+
+/-- {"op":"task","events":[["out"|"err","chunk",hex]|[side,"tick"|"eof"|"cancel"]],"client_out":b,"client_err":b} -/
+def handleTask (j : Json) : Except String Json := do
+  let evs ← (← getArr j "events").toList.mapM sideEvOf
+  let co := (getBool j "client_out").toOption.getD false
+  let ce := (getBool j "client_err").toOption.getD false
+  let s := trun (fun _ => true) co ce evs
+  let side (r : RSt) : Json := Json.mkObj [
+    ("stored", Json.str (hexOf (dataBytes r.out))),
+    ("streamed", Json.str (hexOf (r.blocks.flatten.flatten))),
+    ("done", match r.done with | some b => Json.bool b | none => Json.null)]
+  pure (Json.mkObj [("o", side s.o), ("e", side s.e)])
 
 end Monorail.Driver
